@@ -147,6 +147,9 @@ class ValueContract(Contract):
         ctx.sig(call.cls + '.' + call.name)
         if styled:
             ctx.nontriv(tuple(key))
+            if len(ctx.samples) < 8 and st['args']:
+                ctx.sample({'call': call.describe(), 'receiver_before': st['recv'].o.describe() if st['recv'] else None,
+                            'inplace_form': st['inplace']})
 
 
 def contracts(ctx, mon):
